@@ -224,7 +224,11 @@ func (t *tailBuf) String() string {
 }
 
 func startWorker(command string) *worker {
-	cmd := exec.Command(os.Args[0], command, "--child")
+	exe, err := os.Executable() // re-exec the very same binary
+	if err != nil {
+		exe = os.Args[0]
+	}
+	cmd := exec.Command(exe, command, "--child")
 	stdin, err := cmd.StdinPipe()
 	if err != nil {
 		panic(err)
@@ -236,7 +240,7 @@ func startWorker(command string) *worker {
 	tb := &tailBuf{}
 	cmd.Stderr = tb
 	if err := cmd.Start(); err != nil {
-		panic(fmt.Sprintf("cannot start child %s: %v", os.Args[0], err))
+		panic(fmt.Sprintf("cannot start child %s: %v", exe, err))
 	}
 	return &worker{cmd: cmd, stdin: stdin, stdout: bufio.NewReaderSize(stdout, 1<<20), stderr: tb}
 }
